@@ -84,6 +84,13 @@ type mdoc struct {
 	structured bool
 	badRanges  [][2]int
 	tokErr     bool
+	// pubSafe: the last notification that changed this document was inside the
+	// rate limit, so the server must have published diagnostics for its text
+	pubSafe bool
+	// judged: the (text, publication) pair already compared (the oracle re-parses
+	// the text only when one of them changed)
+	judgedText string
+	judgedPub  *diagNote
 }
 
 type pending struct {
@@ -118,6 +125,7 @@ type sim struct {
 
 	model    map[string]*mdoc
 	pend     []pending
+	lastPub  map[string]*diagNote // per uri: the publishDiagnostics seen last
 	lastNote struct {
 		uri     string
 		kind    string // open|change|close|save
@@ -389,6 +397,11 @@ func (s *sim) checkOutput(final bool) {
 				var d diagNote
 				if json.Unmarshal(m.Params, &d) == nil {
 					diags = append(diags, d)
+					if s.lastPub == nil {
+						s.lastPub = map[string]*diagNote{}
+					}
+					dd := d
+					s.lastPub[d.URI] = &dd
 				}
 			}
 		} else {
@@ -472,6 +485,7 @@ func (s *sim) checkMirror() {
 }
 
 func (s *sim) checkDiagnostics(diags []diagNote) {
+	defer s.checkLastPublished()
 	ln := s.lastNote
 	s.lastNote.kind = ""
 	if ln.kind == "" || !ln.safe {
@@ -545,6 +559,44 @@ func (s *sim) checkDiagnostics(diags []diagNote) {
 			return
 		}
 	}
+}
+
+// checkLastPublished: for EVERY open document whose text is known, the
+// diagnostics published last for it are those of that text - whatever other
+// documents were touched in between (several messages may have been processed
+// since the last quiescent point) and in whatever order publications went out.
+func (s *sim) checkLastPublished() {
+	if len(s.r.Violations) > 0 {
+		return
+	}
+	for _, uri := range s.uris {
+		m := s.model[uri]
+		if m == nil || !m.known || m.maybe || !m.pubSafe || len(m.text) > 4*1024*1024 {
+			continue
+		}
+		lp := s.lastPub[uri]
+		if lp == m.judgedPub && m.text == m.judgedText {
+			continue
+		}
+		m.judgedPub, m.judgedText = lp, m.text
+		if lp == nil {
+			s.r.Fail("diagnostics", "not-published kind=any", fmt.Sprintf("%s is open with known text but no diagnostics were ever published for it; last message: %s", uri, s.lastDesc))
+			return
+		}
+		_, errs := gosqlx.ParseWithRecovery(m.text)
+		s.r.Evals++
+		if len(lp.Diagnostics) != len(errs) {
+			s.r.Fail("diagnostics", "last-published-belongs-to-another-text", fmt.Sprintf("the diagnostics published last for %s list %d problems (version %v) but its current text %q has %d: they belong to an earlier text or to another document; last message: %s", uri, len(lp.Diagnostics), versionOf(lp), clip(m.text, 160), len(errs), s.lastDesc))
+			return
+		}
+	}
+}
+
+func versionOf(d *diagNote) any {
+	if d.Version == nil {
+		return "none"
+	}
+	return *d.Version
 }
 
 func asErr(err error, target **goerrors.Error) bool {
